@@ -227,9 +227,10 @@ def report(ctx, case, f, pool, stats, origin):
 def run(ctx):
     ctx.prove("C28")
     q = ctx.tier == "quick"
-    n_gen = 250 if q else 5000
+    import os
+    n_gen = int(os.environ.get("VERIF_C28_N") or (250 if q else 5000))
     t0 = time.time()
-    pool = G.EnginePool(8 if q else 12)
+    pool = G.EnginePool(12 if q else 14)
     stats = {"findings": collections.Counter(), "shrunk": 0, "shrunk_known": 0}
     try:
         raw_probes(ctx)
